@@ -1,6 +1,8 @@
 import Nstd.Path.FsDtype
 import Nstd.Path.FsTruth
 import Nstd.Path.FsProps
+import Nstd.Path.FsListPat
+import Nstd.Path.Glob
 /-
   Property C19, file-system part, extension round: truthfulness of exists/time/getAbsolutePath/change against the
   world model, Directory::unlink on file systems that do not report `d_type`.
@@ -123,7 +125,52 @@ theorem unlink_known_dtype_is_unlink (fs : Fs) (dir : Bytes) (recursive : Bool) 
     dirUnlinkTopU (fun _ => false) fs dir recursive = dirUnlinkTop fs dir recursive :=
   dirUnlinkU_known _ recursive fs dir
 
+/-- Directory::open(dir, pattern, dirsOnly) + Directory::read, on a file system with ANY `d_type` reporting (`unk`), for
+    every path string in every well-formed world: the listing is the full listing (no pattern, dirsOnly = false, all
+    types reported) with exactly the entries kept whose name the pattern matches and — with dirsOnly — whose
+    directory flag is set; in particular it does not depend on what `readdir` reports as `d_type`, and a failed open
+    fails in both. -/
+theorem listing_is_filtered_full_listing (fs : Fs) (hwf : WF fs) (dir pat : Bytes) (dirsOnly : Bool) (unk : Bytes → Bool) :
+    dirListPat fs dir pat dirsOnly unk = (dirList fs dir).map (fun l => l.filter (keepEntry pat dirsOnly)) :=
+  dirListPat_filters fs hwf dir pat dirsOnly unk
+
+/-- … hence, for a plain directory: the listing with a pattern contains exactly the entries of the directory whose
+    name matches the pattern in the declarative sense (`Glob`: `*` any byte string, `?` one byte, other bytes
+    themselves) — all entries for the empty pattern —, with dirsOnly only those reported as directories (real
+    directories and symbolic links that `stat` resolves to a directory), every name once. -/
+theorem listing_pattern_exact (fs : Fs) (hwf : WF fs) (dir : Bytes) (d : CPath) (hpp : PlainParent fs dir d)
+    (hg : fs.get d = some .dir) (pat : Bytes) (dirsOnly : Bool) (unk : Bytes → Bool) :
+    ∃ l, dirListPat fs dir pat dirsOnly unk = some l ∧
+      (∀ n b, (n, b) ∈ l ↔ ∃ e, fs.get (d ++ [n]) = some e ∧ b = listedAsDir fs dir n e ∧
+        (pat = [] ∨ Glob (fun a b => a = b) pat n) ∧ (dirsOnly = true → b = true)) ∧
+      List.Pairwise (fun a b : Name × Bool => a.1 ≠ b.1) l := by
+  obtain ⟨l0, h0, hmem, hpw⟩ := listing_exact fs hwf dir d hpp hg
+  refine ⟨l0.filter (keepEntry pat dirsOnly), by rw [listing_is_filtered_full_listing fs hwf, h0]; rfl, ?_,
+    hpw.sublist List.filter_sublist⟩
+  intro n b
+  rw [List.mem_filter, hmem]
+  have hk : keepEntry pat dirsOnly (n, b) = true ↔
+      (pat = [] ∨ Glob (fun a b => a = b) pat n) ∧ (dirsOnly = true → b = true) := by
+    simp only [keepEntry, Bool.and_eq_true, Bool.or_eq_true, decide_eq_true_eq, Bool.not_eq_true']
+    rw [fnmatchM_iff]
+    constructor
+    · rintro ⟨h1, h2⟩
+      refine ⟨h1, fun hd => ?_⟩
+      rcases h2 with h2 | h2
+      · rw [hd] at h2; simp at h2
+      · exact h2
+    · rintro ⟨h1, h2⟩
+      refine ⟨h1, ?_⟩
+      cases dirsOnly with
+      | false => exact Or.inl rfl
+      | true => exact Or.inr (h2 rfl)
+  rw [hk]
+  constructor
+  · rintro ⟨⟨e, h1, h2⟩, h3, h4⟩; exact ⟨e, h1, h2, h3, h4⟩
+  · rintro ⟨e, h1, h2, h3, h4⟩; exact ⟨⟨e, h1, h2⟩, h3, h4⟩
+
 /-! non-vacuity -/
+example : dirListPat exWorld [97] [] true (fun _ => true) = some [([98], true), ([108], true)] := by decide
 example : (dirUnlinkTopU (fun _ => true) exWorld [97] true).2 = true := by decide
 example : (dirUnlinkTopU (fun _ => true) exWorld [97] true).1.get [[111], [111, 100], [120]] = some (.file [88]) := by decide
 example : dirChange exWorld cwd [97, 47, 98] = some [[115], [97], [98]] := by decide
